@@ -35,6 +35,10 @@ def _node(ctx):
 
 def run(ctx: Ctx):
     model = ctx.model
+    from .common_node import names_resolve
+    names_resolve(ctx, "C13-RN")
+    from .common_node import identity_semantics
+    identity_semantics(ctx, "C13-R14")
     nc = _node(ctx)
     add = nc.methods.get("_add_peer_connection")
     rem = nc.methods.get("remove_peer_connection")
